@@ -135,4 +135,12 @@ def Graph.setAttr (g : Graph) (n : Node) (a : Nat) : Graph :=
     { g with nodes := g.nodes.map (fun p => if p.1 == n then (n, a) else p) }
   else { g with nodes := g.nodes ++ [(n, a)] }
 
+/-- `clear()`: nodes, interactions, snapshots and the event log are dropped (graph attributes too, as networkx does) -/
+def Graph.clear (g : Graph) : Graph :=
+  { g with nodes := [], edges := [], events := [], snaps := [], gattr := 0 }
+
+/-- `clear_edges()`: interactions, snapshots and the event log are dropped; nodes stay -/
+def Graph.clearEdges (g : Graph) : Graph :=
+  { g with edges := [], events := [], snaps := [] }
+
 end Dynetx
